@@ -55,19 +55,20 @@ Fixpoint scan (items : list item) (s : list ch) : option item :=
   | it :: r => if prefixb (it_name it) s then Some it else scan r s
   end.
 
-(* the arm '~' | '‾' after `cur.next()` *)
-Definition read_definition (sl : slist) (r : list ch) : slist * list ch :=
-  let '(s1, _) := skip_space r 0 in
-  if negb (peek0 s1 =? c_LBRACE) then (sl, s1) else
-  let '(name, s2, _) := get_token_nest c_LBRACE c_RBRACE s1 0 in
-  let '(s3, _) := skip_space s2 0 in
+(* the arm '~' | '‾' after `cur.next()` (fn read_definition); the third component is the number of line breaks the
+   reading stepped over (cur.line - line0): the converter writes them out in place of the removed text *)
+Definition read_definition (sl : slist) (r : list ch) : slist * list ch * Z :=
+  let '(s1, l1) := skip_space r 0 in
+  if negb (peek0 s1 =? c_LBRACE) then (sl, s1, l1) else
+  let '(name, s2, l2) := get_token_nest c_LBRACE c_RBRACE s1 l1 in
+  let '(s3, l3) := skip_space s2 l2 in
   let s4 := if eq_char s3 c_EQ then tl s3 else s3 in
-  let '(s5, _) := skip_space s4 0 in
-  if negb (peek0 s5 =? c_LBRACE) then (sl, s5) else
-  let '(value, s6, _) := get_token_nest c_LBRACE c_RBRACE s5 0 in
+  let '(s5, l5) := skip_space s4 l3 in
+  if negb (peek0 s5 =? c_LBRACE) then (sl, s5, l5) else
+  let '(value, s6, l6) := get_token_nest c_LBRACE c_RBRACE s5 l5 in
   match name with
-  | [] => (sl, s6)                                   (* `if name.is_empty() { continue; }` *)
-  | _ => (sort_items (set_item name value sl), s6)
+  | [] => (sl, s6, l6)                                   (* `if name.is_empty() { return; }` *)
+  | _ => (sort_items (set_item name value sl), s6, l6)
   end.
 
 (* `while !cur.is_eos()`: one iteration per unit of fuel; the result is what the iterations from
@@ -95,7 +96,8 @@ Fixpoint conv_loop (fuel : nat) (sl : slist) (s : list ch) : res (list ch) :=
               do o <- conv_loop f sl s'; Ok (t ++ [c_STAR; c_SLASH] ++ o)
             else do o <- conv_loop f sl r; Ok (chz :: o)
           else if (chz =? c_TILDE) || (chz =? c_OVERLINE) then
-            let '(sl', s') := read_definition sl r in conv_loop f sl' s'
+            let '(sl', s', nl) := read_definition sl r in
+            do o <- conv_loop f sl' s'; Ok (repeat c_NL (Z.to_nat nl) ++ o)
           else
             match scan (sl_items sl) s with
             | Some it => do o <- conv_loop f sl (skipn (length (it_name it)) s); Ok (it_value it ++ o)
